@@ -4,8 +4,8 @@
 // Preconditions respected by the generator (read off the FRG_ASSERTs and the callers):
 //   insert(k)  only for absent k (insert asserts that it inserted)
 //   erase(k)   only for present k
-//   erase() only clears the presence bit; destroying the erased value is the caller's job
-//   (DESIGN.md C16), so the harness destroys it right after the erase (no readers here).
+//   erase() only clears the presence bit; what happens to the erased value is left open (DESIGN.md C16):
+//   the harness disclaims it in the lifetime registry.
 #include <map>
 #include <vector>
 #include <algorithm>
@@ -143,8 +143,9 @@ void verif_case(Ctx &c) {
 			Val *p = tree->find(k);
 			VCHECK(c, "C09", p == it->second.addr, "find(%#llx) before erase returned %p", (unsigned long long)k, (void *)p);
 			tree->erase(k);
-			// the caller's part of the contract: destroy the value once no reader can hold it
-			it->second.addr->~Val();
+			// erase() only clears the presence bit. Who destroys the erased value, and when, is left open by C16 for this container (the
+			// caller after a grace period, the tree when it uses the slot again or dies, or nobody): the registry stops counting it.
+			disclaim(&it->second.addr->tr);
 			c.tag("erase");
 			erased_once.push_back(k);
 			ref.erase(it);
